@@ -1,126 +1,102 @@
-"""C19 hunt (run against the UNMODIFIED tree: `git apply -R patch.diff` first).
+"""Hunt for C19 violations on the UNMODIFIED tree (run after `git apply -R patch.diff`;
+with the seeded patch applied section 1 reports the seeded `== "" & in ""` bug).
 
-Inside the property's quantifier (operators ==, !=, in, not in on string variables) no
-violation was found.  This script re-runs a reduced version of the sweeps and then
-prints two observations that sit just OUTSIDE the quantifier (exception type / atom
-evaluation rather than the specifier algebra).
-
-Sweeps that were run during the hunt (all with 0 violations on the unmodified tree):
-  * GenericSpecifier &, |, ~ : exhaustive, 6 operators (the 4 plus the reversed
-    `contains` / `not contains`) x 14 literals, ordered pairs, 21 candidates: 14 112
-    operator applications (11 698 NotImplementedError, 2 414 results checked)
-  * marker level, one variable, two operands of 1-3 atoms each (forward and
-    literal-on-the-left atoms, in / not in, EqualityMarkerUnion / InequalityMultiMarker),
-    `&` and `|`, results re-parsed from str(): 20 000 random cases vs packaging
-  * left-folded chains of 2-4 MarkerExpression atoms with quote / backslash / NUL /
-    newline / non-ASCII literals, result rendered and re-parsed: 30 000 random cases
-  * exhaustive (a op b) op c over 48 os_name atoms (4 operators x 6 literals x
-    forward/reversed), 4 operator patterns: 442 368 cases
-  * extra / extras / dependency_groups with name normalisation and set / frozenset
-    environments in lock_file and requirement contexts: 20 000 random cases
+Result of the hunt: no NEW violation inside the property's quantifier.  The script
+re-runs the systematic parts of the search and prints one adjacent observation
+(MarkerExpression.from_specifier on a "contains" specifier) that is outside C19.
 """
-
 import itertools
 
-from packaging.markers import Marker
+from packaging.markers import Marker, default_environment
 
-from dep_logic.markers import parse_marker
-from dep_logic.markers.single import MarkerExpression
-from dep_logic.specifiers.generic import GenericSpecifier
+from dep_logic.markers import MarkerExpression, parse_marker
+from dep_logic.markers.single import EqualityMarkerUnion, InequalityMultiMarker
+from dep_logic.specifiers.generic import GenericSpecifier as G
+from dep_logic.specifiers.special import AnySpecifier, EmptySpecifier
+from dep_logic.utils import OrderedSet
 
-POOL = ["", "a", "b", "ab", "abc", "bc", "c", "nt", "posix", "posix nt", "A", "aa", "aba", " "]
-CANDS = POOL + ["x", "abcd", "ba", "n", "t", "posix nt java", "a b"]
-OPS = ["==", "!=", "in", "not in", "contains", "not contains"]
-
-
-def spec_sweep() -> int:
-    bad = 0
-    for (o1, v1), (o2, v2) in itertools.product(itertools.product(OPS, POOL), repeat=2):
-        a, b = GenericSpecifier(o1, v1), GenericSpecifier(o2, v2)
-        for sym, comb in (("&", lambda x, y: x and y), ("|", lambda x, y: x or y)):
-            try:
-                r = (a & b) if sym == "&" else (a | b)
-            except NotImplementedError:
-                continue
-            for c in CANDS:
-                if (c in r) != comb(c in a, c in b):
-                    print(f"VIOLATION ({a}) {sym} ({b}) -> {r!r} on {c!r}")
-                    bad += 1
-                    break
-    for o, v in itertools.product(OPS, POOL):
-        a = GenericSpecifier(o, v)
-        if any((c in ~a) == (c in a) for c in CANDS):
-            print(f"VIOLATION ~({a})")
-            bad += 1
-    return bad
+OPS = ["==", "!=", "in", "not in"]
+POOL = ["", "a", "b", "ab", "abc", "bc", "c", "xyz", "abcab", "nt", "posix", "win32",
+        "linux", "lin", "x", "li nux", " ", "a ", "A", "Ab", 'q"t', "q't", "b\\s", "é"]
+CANDS = POOL + ["zz", "abca", "n", "p"]
 
 
-def chain_sweep() -> int:
-    pool = ["", "a", "ab", "b"]
-    cands = pool + ["x", "ba"]
-    atoms = [
-        MarkerExpression("os_name", op, v, rev)
-        for op in ("==", "!=", "in", "not in")
-        for v in pool
-        for rev in (False, True)
-    ]
-    table = {a: [a.evaluate({"os_name": c}) for c in cands] for a in atoms}
-    bad = 0
-    for a, b, c in itertools.product(atoms, repeat=3):
-        for o1, o2 in ("&&", "||", "&|", "|&"):
-            x = (a & b) if o1 == "&" else (a | b)
-            r = (x & c) if o2 == "&" else (x | c)
-            exp = [(p and q) if o1 == "&" else (p or q) for p, q in zip(table[a], table[b])]
-            exp = [(p and q) if o2 == "&" else (p or q) for p, q in zip(exp, table[c])]
-            if [r.evaluate({"os_name": cc}) for cc in cands] != exp:
-                print(f"VIOLATION ({a}) {o1} ({b}) {o2} ({c}) -> {r}")
-                bad += 1
-    return bad
+def sat(op, v, s):
+    return {"==": s == v, "!=": s != v, "in": s in v, "not in": s not in v}[op]
 
 
-def side_observations() -> None:
-    print("\nObservations outside the quantifier (not counted as C19 violations):")
-    # 1. `extra` with in / not in: packaging evaluates, dep-logic hits a bare assert
-    for s, env in (
-        ('extra in "abc"', {"extra": "a"}),
-        ('extra not in "abc"', {"extra": "x"}),
-        ('"a" in extra', {"extra": "abc"}),
-    ):
-        oracle = Marker(s).evaluate(env)
+found = 0
+
+# 1. exhaustive: ordered pairs of (op, literal) x candidates, &, |, ~, plus Empty/Any operands
+n = 0
+for (o1, v1), (o2, v2) in itertools.product(itertools.product(OPS, POOL), repeat=2):
+    a, b = G(o1, v1), G(o2, v2)
+    for kind in "&|":
         try:
-            got = parse_marker(s).evaluate(env)
-        except Exception as e:  # noqa: BLE001
-            got = f"raises {type(e).__name__}"
-        print(f"  [extra-in] {s!r} env={env}: dep-logic {got}; packaging {oracle}")
-    print(
-        "     (MarkerExpression._evaluate: `assert self.op in ('==', '!=')`; under "
-        "python -O the assert is gone and `in` is evaluated as `!=`)"
-    )
-    # 2. `~=` on a plain string variable: the single atom parses (and evaluates to
-    #    UndefinedComparison like packaging), but as soon as it meets a same-variable
-    #    atom parse_marker itself raises specifiers.base.InvalidSpecifier (neither
-    #    InvalidMarker nor NotImplementedError), so the marker cannot even be built.
-    for s in ('os_name ~= "nt"', 'os_name ~= "nt" and os_name == "nt"', 'os_name ~= "nt" or sys_platform == "x" or os_name != "nt"'):
-        try:
-            Marker(s)
-            pk = "parses"
-        except Exception as e:  # noqa: BLE001
-            pk = f"raises {type(e).__name__}"
-        try:
-            m = parse_marker(s)
-            dl = f"parses to {str(m)!r}"
-        except Exception as e:  # noqa: BLE001
-            dl = f"raises {type(e).__module__}.{type(e).__name__}: {e}"
-        print(f"  [tilde-on-string] {s!r}: dep-logic {dl}; packaging {pk}")
+            r = a & b if kind == "&" else a | b
+        except NotImplementedError:
+            continue
+        for s in CANDS:
+            n += 1
+            p, q = sat(o1, v1, s), sat(o2, v2, s)
+            exp = (p and q) if kind == "&" else (p or q)
+            if (s in r) != exp:
+                found += 1
+                print(f"VIOLATION ({a}) {kind} ({b}) -> {r!r}; {s!r} in result = {s in r}, oracle = {exp}")
+for o, v in itertools.product(OPS, POOL):
+    a = G(o, v)
+    assert hash(a) == hash(G(o, v)) and a == G(o, v)
+    for s in CANDS:
+        n += 1
+        if (s in ~a) == sat(o, v, s):
+            found += 1
+            print(f"VIOLATION ~({a}) on {s!r}")
+        for r, exp in ((a & EmptySpecifier(), False), (EmptySpecifier() & a, False),
+                       (a | EmptySpecifier(), sat(o, v, s)), (EmptySpecifier() | a, sat(o, v, s)),
+                       (a & AnySpecifier(), sat(o, v, s)), (AnySpecifier() & a, sat(o, v, s)),
+                       (a | AnySpecifier(), True), (AnySpecifier() | a, True)):
+            n += 1
+            if (s in r) != exp:
+                found += 1
+                print(f"VIOLATION special operand with {a} on {s!r}: {r!r}")
+print(f"[1] specifier level: {n} membership checks")
 
+# 2. consumers: atoms (both literal sides), EqualityMarkerUnion / InequalityMultiMarker built
+#    through their constructors, every ordered pair under & and | (incl. __rand__/__ror__),
+#    result evaluated directly and after str() -> parse_marker(); oracle = both operands
+#    evaluated separately, atoms cross-checked against packaging.
+pool = ["", "a", "b", "ab", "abc", "bc"]
+atoms = [MarkerExpression("os_name", o, v, r) for o in OPS for v in pool for r in (False, True)]
+sets = [OrderedSet(c) for k in (2, 3) for c in itertools.permutations(pool[:5], k)][::3]
+objs = atoms + [EqualityMarkerUnion("os_name", s) for s in sets] + [InequalityMultiMarker("os_name", s) for s in sets]
+base = default_environment()
+envs = [dict(base, os_name=v) for v in pool + ["zz", "abca", "c"]]
+ev = lambda m: tuple(m.evaluate(e) for e in envs)
+E = {id(o): ev(o) for o in objs}
+for a in atoms:
+    assert tuple(Marker(str(a)).evaluate(e) for e in envs) == E[id(a)], str(a)
+m = 0
+for x, y in itertools.product(objs, repeat=2):
+    for kind in "&|":
+        m += 1
+        r = x & y if kind == "&" else x | y
+        rp = r if (r.is_any() or r.is_empty()) else parse_marker(str(r))
+        exp = tuple((p and q) if kind == "&" else (p or q) for p, q in zip(E[id(x)], E[id(y)]))
+        if ev(r) != exp or ev(rp) != exp:
+            found += 1
+            print(f"VIOLATION marker level: {x!r} {kind} {y!r} -> {r!r}")
+print(f"[2] marker level: {m} ordered pairs x {len(envs)} environments")
 
-def main() -> None:
-    bad = spec_sweep()
-    print(f"GenericSpecifier exhaustive sweep: {bad} violation(s)")
-    bad = chain_sweep()
-    print(f"three-atom os_name chains (131 072 cases): {bad} violation(s)")
-    side_observations()
+# 3. adjacent observation (NOT a C19 violation: the algebra itself never produces it, because a
+#    "contains" result is always one of the operands and _merge_single_markers returns that operand):
+spec = parse_marker('"a" in os_name').specifier
+me = MarkerExpression.from_specifier("os_name", spec)
+print(f"[3] note: from_specifier('os_name', {spec!r}) -> {str(me)!r}: not a PEP 508 marker; ", end="")
+try:
+    me.evaluate({"os_name": "abc"})
+except Exception as ex:
+    print("evaluate raises", type(ex).__name__)
+else:
+    print("evaluates")
 
-
-if __name__ == "__main__":
-    main()
+print("NEW C19 violations found:", found)
